@@ -9,6 +9,7 @@
  *   reaches it, ext2fs_open2 is never called with EXT2_FLAG_RW, the undo file is opened read-only.
  */
 #define VF_FAULTS
+#define CUT_CHECKFS
 #define VF_INCLUDE_IO_MANAGER
 #include "e2undo_pre.h"	/* (also pulls in the real lib/ext2fs/io_manager.c: io_channel_read_blk64 / io_channel_write_blk64) */
 #include "misc/e2undo.c"
@@ -40,10 +41,8 @@ int main(void)
 	vf_returned = vf_real_main(VF_ARGC, vf_argv);
 	vf_end();
 	PROP(vf_returned == 0 || vf_returned == 1, "e2undo returns 0 or 1");
-#ifdef WANT_INCOMPLETE
-	/* the witness path of this query: a dry run that reaches the end with an incomplete header */
+	/* the witness path: a dry run that reaches the end of main() with an incomplete header (the case the final force-fsck block keys on) */
 	if (!(IN.state & E2UNDO_STATE_FINISHED))
-#endif
-	VF_END();
+		VF_END();
 	return 0;
 }
